@@ -763,6 +763,16 @@ type vfC13E2E struct {
 	Trailers bool      `json:"trailers"`
 	NumResp  int       `json:"numResponses"`
 	H1       bool      `json:"h1"`
+	// Compression negotiated for the call (0 = identity); the reference server leaves small end-of-stream messages
+	// uncompressed whatever was negotiated
+	Compression int32 `json:"compression"`
+}
+
+func vfE2ECompression(c int32) conformancev1.Compression {
+	if c <= 1 || c > 6 {
+		return conformancev1.Compression_COMPRESSION_IDENTITY
+	}
+	return conformancev1.Compression(c)
 }
 
 func vfE2EServer(v conformancev1.HTTPVersion) (*verifsrv.Server, error) {
@@ -805,7 +815,7 @@ func vfC13E2ECheck(c vfC13E2E) error {
 	protoErr := c.Err.proto()
 	req := &conformancev1.ClientCompatRequest{
 		TestName: name, HttpVersion: version, Protocol: conformancev1.Protocol(c.Protocol), Codec: conformancev1.Codec(c.Codec),
-		Compression: conformancev1.Compression_COMPRESSION_IDENTITY, Host: viaHost, Port: viaPort,
+		Compression: vfE2ECompression(c.Compression), Host: viaHost, Port: viaPort,
 		Service:        proto.String("connectrpc.conformance.v1.ConformanceService"),
 		RequestHeaders: []*conformancev1.Header{{Name: "X-Test-Case-Name", Value: []string{name}}},
 	}
@@ -853,7 +863,8 @@ func TestVerifC13E2E(t *testing.T) {
 			e.Meta = nil
 			return vfC13E2E{Err: e, Protocol: int32(rapid.IntRange(1, 3).Draw(t, "protocol")), Codec: int32(rapid.IntRange(1, 2).Draw(t, "codec")),
 				Stream:  rapid.SampledFrom([]string{"unary", "unary", "server-stream", "client-stream", "bidi"}).Draw(t, "stream"),
-				Headers: rapid.Bool().Draw(t, "headers"), Trailers: rapid.Bool().Draw(t, "trailers"), NumResp: rapid.IntRange(0, 2).Draw(t, "numResp"), H1: rapid.Bool().Draw(t, "h1")}
+				Headers: rapid.Bool().Draw(t, "headers"), Trailers: rapid.Bool().Draw(t, "trailers"), NumResp: rapid.IntRange(0, 2).Draw(t, "numResp"), H1: rapid.Bool().Draw(t, "h1"),
+				Compression: rapid.SampledFrom([]int32{0, 0, 2, 3, 4, 5, 6}).Draw(t, "compression")}
 		},
 		Check: vfC13E2ECheck,
 		Classify: func(c vfC13E2E) ([]string, bool) {
@@ -864,6 +875,159 @@ func TestVerifC13E2E(t *testing.T) {
 				}
 			}
 			return []string{conformancev1.Protocol(c.Protocol).String(), c.Stream}, esc || len(c.Err.Details) > 0
+		},
+	})
+}
+
+// ---- C13 raw end-to-end: malformed and well-formed wire content served by the reference server's raw-response
+// feature, seen by the real reference client through the real tracer (not a synthetic trace) ----
+
+type vfC13RawE2E struct {
+	Family  string `json:"family"` // connect-endstream, grpcweb-trailers, trailers-only
+	Variant string `json:"variant"`
+	H1      bool   `json:"h1"`
+	// Encoding: a per-message encoding is negotiated (response header) while the end-of-stream message itself is
+	// sent uncompressed, which the envelope flags allow
+	Encoding string `json:"encoding"`
+	Announce bool   `json:"announceTrailer"` // the response announces a trailer ("Trailer: X-Announced") it never sends
+	GRPC     bool   `json:"grpc"`            // trailers-only: over gRPC instead of gRPC-Web
+}
+
+// vfC13RawVariants: per family, variant name -> (content, keyword that the feedback must contain; "" = well-formed)
+var vfC13RawVariants = map[string]map[string][2]string{
+	"connect-endstream": {
+		"ok-empty":      {`{}`, ""},
+		"ok-error":      {`{"error":{"code":"internal","message":"boom"},"metadata":{"x-a":["1"]}}`, ""},
+		"bad-code":      {`{"error":{"code":"bogus","message":"m"}}`, "not a recognized error code name"},
+		"invalid-key":   {`{"errr":{}}`, "invalid key"},
+		"metadata-type": {`{"metadata":{"x-a":"not-an-array"}}`, "metadata"},
+	},
+	"grpcweb-trailers": {
+		"ok":         {"grpc-status: 0\r\n", ""},
+		"ok-error":   {"grpc-status: 3\r\ngrpc-message: bad%20thing\r\n", ""},
+		"upper-case": {"Grpc-Status: 0\r\n", "non-lower-case field key"},
+		"lf-only":    {"grpc-status: 0\n", "LF line ending"},
+		"bad-status": {"grpc-status: 99\r\n", "should be >= 0 && <= 16"},
+	},
+	"trailers-only": {
+		"ok":            {"3|bad%20thing", ""},
+		"bad-status":    {"99|", "should be >= 0 && <= 16"},
+		"bad-percent":   {"3|bad%2", "incomplete percent-encoded"},
+		"unescaped-del": {"3|del\x7fhere", ""}, // not transportable as a header value: skipped below
+	},
+}
+
+func vfC13RawE2ECheck(c vfC13RawE2E) error {
+	v, ok := vfC13RawVariants[c.Family][c.Variant]
+	if !ok || c.Variant == "unescaped-del" {
+		return nil
+	}
+	content, keyword := v[0], v[1]
+	version := conformancev1.HTTPVersion_HTTP_VERSION_2
+	if c.H1 && !c.GRPC {
+		version = conformancev1.HTTPVersion_HTTP_VERSION_1
+	}
+	srv, err := vfE2EServer(version)
+	if err != nil {
+		return nil
+	}
+	vfRecMu.Lock()
+	vfRecSeq++
+	name := fmt.Sprintf("verif/c13raw/%d", vfRecSeq)
+	vfRecMu.Unlock()
+	raw := &conformancev1.RawHTTPResponse{StatusCode: 200}
+	protocol := conformancev1.Protocol_PROTOCOL_CONNECT
+	method, streamType := "ServerStream", conformancev1.StreamType_STREAM_TYPE_SERVER_STREAM
+	switch c.Family {
+	case "connect-endstream":
+		raw.Headers = []*conformancev1.Header{{Name: "Content-Type", Value: []string{"application/connect+proto"}}}
+		if c.Encoding != "" {
+			raw.Headers = append(raw.Headers, &conformancev1.Header{Name: "Connect-Content-Encoding", Value: []string{c.Encoding}})
+		}
+		raw.Body = &conformancev1.RawHTTPResponse_Stream{Stream: &conformancev1.StreamContents{Items: []*conformancev1.StreamContents_StreamItem{
+			{Flags: 2, Payload: &conformancev1.MessageContents{Data: &conformancev1.MessageContents_Text{Text: content}}}}}}
+	case "grpcweb-trailers":
+		protocol = conformancev1.Protocol_PROTOCOL_GRPC_WEB
+		raw.Headers = []*conformancev1.Header{{Name: "Content-Type", Value: []string{"application/grpc-web+proto"}}}
+		if c.Encoding != "" {
+			raw.Headers = append(raw.Headers, &conformancev1.Header{Name: "Grpc-Encoding", Value: []string{c.Encoding}})
+		}
+		raw.Body = &conformancev1.RawHTTPResponse_Stream{Stream: &conformancev1.StreamContents{Items: []*conformancev1.StreamContents_StreamItem{
+			{Flags: 128, Payload: &conformancev1.MessageContents{Data: &conformancev1.MessageContents_Text{Text: content}}}}}}
+	default: // trailers-only: the status travels in the HTTP headers, the body is empty
+		parts := strings.SplitN(content, "|", 2)
+		protocol = conformancev1.Protocol_PROTOCOL_GRPC_WEB
+		ct := "application/grpc-web+proto"
+		if c.GRPC {
+			protocol, ct = conformancev1.Protocol_PROTOCOL_GRPC, "application/grpc+proto"
+		}
+		raw.Headers = []*conformancev1.Header{{Name: "Content-Type", Value: []string{ct}}, {Name: "Grpc-Status", Value: []string{parts[0]}}}
+		if parts[1] != "" {
+			raw.Headers = append(raw.Headers, &conformancev1.Header{Name: "Grpc-Message", Value: []string{parts[1]}})
+		}
+		method, streamType = "Unary", conformancev1.StreamType_STREAM_TYPE_UNARY
+	}
+	if c.Announce {
+		raw.Headers = append(raw.Headers, &conformancev1.Header{Name: "Trailer", Value: []string{"X-Announced"}})
+	}
+	viaHost, viaPort := vfVia(srv.Host, srv.Port)
+	req := &conformancev1.ClientCompatRequest{
+		TestName: name, HttpVersion: version, Protocol: protocol, Codec: conformancev1.Codec_CODEC_PROTO,
+		// (the client has to offer the encoding, else it refuses the response before reading its body)
+		Compression: map[string]conformancev1.Compression{"": conformancev1.Compression_COMPRESSION_IDENTITY, "gzip": conformancev1.Compression_COMPRESSION_GZIP,
+			"br": conformancev1.Compression_COMPRESSION_BR, "zstd": conformancev1.Compression_COMPRESSION_ZSTD}[c.Encoding], Host: viaHost, Port: viaPort,
+		Service: proto.String("connectrpc.conformance.v1.ConformanceService"), Method: proto.String(method), StreamType: streamType,
+		RequestHeaders: []*conformancev1.Header{{Name: "X-Test-Case-Name", Value: []string{name}}},
+	}
+	if method == "Unary" {
+		req.RequestMessages, _ = vfAny(&conformancev1.UnaryRequest{ResponseDefinition: &conformancev1.UnaryResponseDefinition{RawResponse: raw}})
+	} else {
+		req.RequestMessages, _ = vfAny(&conformancev1.ServerStreamRequest{ResponseDefinition: &conformancev1.StreamResponseDefinition{RawResponse: raw}})
+	}
+	resp, rerr := vfRunClient(req)
+	if rerr != nil {
+		return verifkit.Violf("rawe2e-client-failed", "reference client failed: %v", rerr)
+	}
+	result := resp.GetResponse()
+	if result == nil {
+		return verifkit.Violf("rawe2e-client-failed", "reference client reported: %v", resp.GetError())
+	}
+	what := fmt.Sprintf("%s/%s (h1=%v encoding=%q announce=%v grpc=%v)", c.Family, c.Variant, c.H1, c.Encoding, c.Announce, c.GRPC)
+	if keyword == "" {
+		if len(result.Feedback) > 0 {
+			return verifkit.Violf("rawe2e-wellformed-flagged:"+c.Family, "well-formed %s drew feedback %q", what, result.Feedback)
+		}
+		return nil
+	}
+	for _, f := range result.Feedback {
+		if strings.Contains(f, keyword) {
+			return nil
+		}
+	}
+	return verifkit.Violf("rawe2e-malformed-accepted:"+c.Family+":"+c.Variant, "malformed %s: no feedback names it (want %q), got %q (client saw error %v, %d payloads, status %v)", what, keyword, result.Feedback, result.Error, len(result.Payloads), result.HttpStatusCode)
+}
+
+func TestVerifC13RawE2E(t *testing.T) {
+	defer verifsrv.StopCached()
+	verifkit.Run(t, "C13RawE2E", verifkit.Spec[vfC13RawE2E]{
+		Gen: func(t *rapid.T) vfC13RawE2E {
+			c := vfC13RawE2E{Family: rapid.SampledFrom([]string{"connect-endstream", "grpcweb-trailers", "trailers-only"}).Draw(t, "family"), H1: rapid.Bool().Draw(t, "h1")}
+			var names []string
+			for n := range vfC13RawVariants[c.Family] {
+				names = append(names, n)
+			}
+			sort.Strings(names)
+			c.Variant = rapid.SampledFrom(names).Draw(t, "variant")
+			c.Encoding = rapid.SampledFrom([]string{"", "gzip", "gzip", "br", "zstd"}).Draw(t, "encoding")
+			// (announcing a trailer makes net/http list it among the response trailers; outside gRPC that alone is
+			// flagged as "HTTP trailers", so the announcement is only combined with trailers-only gRPC responses)
+			c.GRPC = c.Family == "trailers-only" && rapid.Bool().Draw(t, "grpc")
+			c.Announce = c.GRPC && rapid.IntRange(0, 1).Draw(t, "announce") == 0
+			return c
+		},
+		Check: vfC13RawE2ECheck,
+		Classify: func(c vfC13RawE2E) ([]string, bool) {
+			return []string{c.Family + "/" + c.Variant}, c.Encoding != "" || c.Announce
 		},
 	})
 }
